@@ -190,8 +190,12 @@ NOT_APPLICABLE = {p: PENDING for p in ALL if p not in CHECKS}
 # ---- additions made after the seeded rounds 2-4 and the mutation audits (DESIGN.md section 3, last paragraphs)
 ADDENDA = {
     'C02': ' Also: the pot arithmetic of C01 re-filed as C02.amounts (layers, merge, rake plumbing, quotient to every winner / board / hand type and '
-           'the odd chips to the first of them), the face-up flags of a partial show (only tabled cards take part), the hand-type list in loop or comprehension form.',
+           'the odd chips to the first of them), the face-up flags of a partial show (only tabled cards take part), the hand-type list in loop or comprehension form; C02.strongest = the best-of-combinations search clauses of C05 re-filed '
+           '(the hand taken to the showdown is the one Hand.from_game forms); the default division of every variant is the package divmod.',
     'C04': ' Also: strict prime lookup of the rank hash, the full shape of the dense re-indexing, the window arithmetic of the straights, the None key of has_entry, unknown_status.',
+    'C05': ' Also: C05.observed (State.get_hand / get_up_hand hand the evaluator the known / face-up cards and the asked board).',
+    'C06': ' Also: C06.rows (one new list per player / street in _setup, no replicated mutable row anywhere in State), C06.show_fill (cards kept '
+           'face down at a partial show are the held known cards not among the shown ones).',
     'C07': ' Also: C07.no_overdraw (amounts taken from a stack are bounded by it), C07.available (per-player steps and fold/check/bring-in are refused '
            'only for reasons the phase-end condition knows), C07.phase_check, the street closed only where chips pushing begins.',
     'C08': ' Also: every public verifier asks its phase verifier first; the operation itself neither raises nor warns.',
